@@ -331,10 +331,8 @@ impl KnowledgeGraphSnapshot {
             HashMap::with_capacity(self.input_tuples.len() + needs_mutation.len());
         for (rel, tuples) in self.input_tuples.as_ref() {
             if let Some(extra) = needs_mutation.remove(rel) {
-                // This relation needs session facts: clone and extend
-                let mut cloned = tuples.clone();
-                cloned.extend(extra);
-                isolated_tuples.insert(rel.clone(), cloned);
+                // This relation needs session facts: clone and add the new ones
+                isolated_tuples.insert(rel.clone(), union_session_facts(tuples.clone(), extra));
             } else {
                 // No session facts for this relation: share the existing vec
                 isolated_tuples.insert(rel.clone(), tuples.clone());
@@ -342,7 +340,7 @@ impl KnowledgeGraphSnapshot {
         }
         // Add relations that only exist in session facts (not in base data)
         for (rel, tuples) in needs_mutation {
-            isolated_tuples.insert(rel, tuples);
+            isolated_tuples.insert(rel, union_session_facts(Vec::new(), tuples));
         }
 
         // Set the isolated tuples on the engine (needed for pipeline)
@@ -392,15 +390,13 @@ impl KnowledgeGraphSnapshot {
             HashMap::with_capacity(self.input_tuples.len() + needs_mutation.len());
         for (rel, tuples) in self.input_tuples.as_ref() {
             if let Some(extra) = needs_mutation.remove(rel) {
-                let mut cloned = tuples.clone();
-                cloned.extend(extra);
-                isolated_tuples.insert(rel.clone(), cloned);
+                isolated_tuples.insert(rel.clone(), union_session_facts(tuples.clone(), extra));
             } else {
                 isolated_tuples.insert(rel.clone(), tuples.clone());
             }
         }
         for (rel, tuples) in needs_mutation {
-            isolated_tuples.insert(rel, tuples);
+            isolated_tuples.insert(rel, union_session_facts(Vec::new(), tuples));
         }
 
         let shared = Arc::new(isolated_tuples);
@@ -453,6 +449,30 @@ impl KnowledgeGraphSnapshot {
     pub fn is_materialized(&self, relation: &str) -> bool {
         self.materialized_relations.contains(relation)
     }
+}
+
+/// Set union of a stored relation with session facts.
+///
+/// Relations are sets: a session fact equal to a stored fact (or to another session
+/// fact) must not be present twice, otherwise aggregates (count, sum) over the
+/// relation see it with multiplicity two.
+fn union_session_facts(mut base: Vec<Tuple>, extra: Vec<Tuple>) -> Vec<Tuple> {
+    // One pass over the stored relation: which session facts are not stored yet
+    let mut missing: HashSet<&Tuple> = extra.iter().collect();
+    for tuple in &base {
+        if missing.is_empty() {
+            break;
+        }
+        missing.remove(tuple);
+    }
+    let mut added: HashSet<&Tuple> = HashSet::new();
+    let new_tuples: Vec<Tuple> = extra
+        .iter()
+        .filter(|t| missing.contains(*t) && added.insert(*t))
+        .cloned()
+        .collect();
+    base.extend(new_tuples);
+    base
 }
 
 impl std::fmt::Debug for KnowledgeGraphSnapshot {
